@@ -405,8 +405,8 @@ func (s *sys) runBaseChdir(d string) (got, want result) {
 	g.do("Base", func(*sub) error { return s.base.Chdir(d) })
 
 	virt := "/"
-	if underB(d) && d != basePath {
-		virt = strings.TrimPrefix(d, basePath)
+	if underB(d) && d != wBase {
+		virt = strings.TrimPrefix(d, wBase)
 	}
 
 	if virt == "/" {
